@@ -391,6 +391,12 @@ def normalise(spec, flags, ctx=None):
                 if "param" in e:
                     e.pop("param")
                     applied.add("no-effect-option-params")
+    if "no-allopts" in flags:
+        def strip(n):
+            if n["k"] == "allopts":
+                n.clear()
+                n.update({"k": "val", "v": None})
+        walk(spec, strip)
     if ctx is not None:
         for a in applied:
             ctx.exclude(a)
